@@ -3,6 +3,7 @@ CONSTANTS
   Focus = {"g.x", "g.y"}
   NDcf = 2
   MaxArgv = 3
+  Repeat = TRUE
   Emit = TRUE
 INVARIANT DocumentedOrder
 INVARIANT StagesAgree
